@@ -32,7 +32,7 @@ def main():
         version=1,
         setup_cmd='./check setup',
         hooks=dict(guard=core.GUARD, enable='checks compile /repo/src/**/*.cpp themselves with -D%s (no cmake); hooks are weak callbacks defined only by the harness' % core.GUARD,
-                   baseline_off_cmd='cmake -S /repo -B /repo/_build_off -DCMAKE_BUILD_TYPE=Debug >/dev/null && cmake --build /repo/_build_off -j16 >/dev/null && ctest --test-dir /repo/_build_off -j8 --timeout 900',
+                   baseline_off_cmd='cmake -S /repo -B /verif/.build/baseline_off -DCMAKE_BUILD_TYPE=Debug >/dev/null && cmake --build /verif/.build/baseline_off -j16 >/dev/null && ctest --test-dir /verif/.build/baseline_off -j8 --timeout 900',
                    source_commits=hook_commits(), add_only=True),
         engines=[dict(name='nstd-runtime-monitors', path='check', serves_properties=[c['property_id'] for c in checks],
                       kind_free_text='python driver (vlib/) that rebuilds /repo/src under gcc ASan+UBSan / TSan / plain, runs C++ harnesses (harness/) with reference-model monitors, structure walkers, libc interposition and offline log checkers, and decides from what they observed')],
